@@ -67,6 +67,7 @@ func c02Schema(r *rng.Rand) *spec.Node {
 	o := gen.DefaultOpts()
 	o.ModChains = r.Intn(3) == 0
 	o.Share = r.Intn(5) == 0
+	o.Pre = r.Intn(4) == 0
 	switch r.Intn(10) {
 	case 0:
 		o.TopKinds = []spec.Kind{spec.Slice}
